@@ -275,6 +275,19 @@ impl RttTracker {
     }
 }
 
+/// Window observation for the out-of-tree checker (feature `verif-hooks`).
+#[cfg(feature = "verif-hooks")]
+impl RttTracker {
+    /// `(fast window, slow window, sample filter)` oldest first.
+    pub fn verif_windows(&self) -> (Vec<f64>, Vec<f64>, Vec<f64>) {
+        (
+            self.rtt_min_fast_window.iter().copied().collect(),
+            self.rtt_min_slow_window.iter().copied().collect(),
+            self.rtt_sample_filter.iter().copied().collect(),
+        )
+    }
+}
+
 #[cfg(test)]
 mod tests {
     use super::*;
